@@ -83,8 +83,12 @@ def gen_case(rng):
     tf = [rng.choice(elementwise) for _ in range(rng.choice([0, 0, 1, 2]))]
     if rng.random() < 0.15:
         tf.insert(rng.randint(0, len(tf)), rng.choice(NONELEM))
-    return dict(kind='chain', shape=shape, chunks=chunks, stages=stages, k2=k2, transforms=tf,
-                joint=rng.random() < 0.25, mutate=rng.random() < 0.3, arr=[rng.random() < 0.5 for _ in range(64)])
+    # transforms on the PARENT indexers of a nested chain (element-wise, so they commute with the later selections;
+    # x3p1 is not idempotent: applying a parent's transform twice shows)
+    ptf = [([rng.choice(['x3p1', 'x3p1', 'neg'])] if rng.random() < 0.3 else []) for _ in range(nstages - 1)]
+    return dict(kind='chain', shape=shape, chunks=chunks, stages=stages, k2=k2, transforms=tf, ptransforms=ptf,
+                joint=rng.random() < 0.25, mutate=rng.random() < 0.3, arr=[rng.random() < 0.5 for _ in range(64)],
+                bare=rng.random() < 0.5)
 
 
 def request_line(case, op='chain'):
@@ -111,7 +115,8 @@ def run_impl(case):
         for si, k in enumerate(case['stages']):
             kp = py_tuple(k, case['arr'], si * 7)
             keeps.append(kp)
-            tfs = [TRANSFORMS[t] for t in case['transforms']] if si == nst - 1 else []
+            tfs = [TRANSFORMS[t] for t in case['transforms']] if si == nst - 1 else \
+                [TRANSFORMS[t] for t in (case.get('ptransforms') or [[]] * nst)[si]]
             cur = DaskLazyIndexer(cur, kp, tfs)
         if case['mutate']:
             for kp in keeps:
@@ -119,6 +124,10 @@ def run_impl(case):
                     if isinstance(obj, np.ndarray) and obj.size:
                         obj[...] = obj[::-1].copy() if obj.dtype != bool else ~obj
         k2 = py_tuple(case['k2'], case['arr'], 31)
+        if case.get('bare') and len(k2) >= 1 and isinstance(k2[0], list) and \
+                all(isinstance(x, slice) and x == slice(None) for x in k2[1:]):
+            k2 = k2[0]            # a bare Python list: ONE fancy index on the first axis, not a tuple of indices
+            res['bare_list'] = True
         res['adv_shape'] = tuple(cur.shape)
         res['adv_dtype'] = str(cur.dtype)
         with dask.config.set(scheduler='synchronous'):
@@ -165,6 +174,9 @@ def expected_from_model(case, reply):
     shape = tuple(case['shape'])
     src = np.arange(int(np.prod(shape)), dtype=np.int64).reshape(shape)
     exp = ixgen.apply_sels(src, sels)
+    for stage_tfs in (case.get('ptransforms') or []):
+        for t in stage_tfs:
+            exp = TRANSFORMS[t](exp)
     for t in case['transforms']:
         exp = TRANSFORMS[t](exp)
     return (shape1, exp, sels)
@@ -200,6 +212,9 @@ def judge(ctx, case, mreply, sreply, impl):
             return None
         src = np.arange(int(np.prod(case['shape'])), dtype=np.int64).reshape(tuple(case['shape']))
         mid = ixgen.apply_sels(src, ixgen.parse_sels(s1))
+        for stage_tfs in (case.get('ptransforms') or []):
+            for t in stage_tfs:
+                mid = TRANSFORMS[t](mid)
         for t in case['transforms']:
             mid = TRANSFORMS[t](mid)
         exp = ixgen.apply_sels(mid, ixgen.parse_sels(rb.split(' ')[-1]))
@@ -544,6 +559,8 @@ def shape_changing(ctx, n):
         tfs = [SHAPE_CHANGING.get(t) or TRANSFORMS[t] for t in names]
         mode = rng.choice(['nofirst', 'first', 'child'])
         k1 = gen_tuple(rng, shape, 1) if mode == 'first' else []
+        # (negative-step slices are left to the chain cases, where the recorded dask defect has its matcher)
+        k1 = [(('s', None, None, None) if ix[0] == 's' and (ix[3] or 1) < 0 else ix) for ix in k1]
         case = dict(kind='shapechange', shape=shape, chunks=chunks, transforms=names, mode=mode, k1=k1)
         rep = common.run_model('C04', [f"specchain {ixgen.enc_shape(shape)} {ixgen.enc_tuple(k1)} {ixgen.enc_tuple([])}"])[0]
         if rep.startswith('E:'):
